@@ -1,0 +1,13 @@
+//go:build verif
+// +build verif
+
+// Test-input producers for the verification harness under /verif.
+// Compiled only with `-tags verif`; nothing here changes behaviour.
+
+package compress
+
+func VerifLZ4Encode(data []byte) ([]byte, error)             { return doLZ4Encode(data, 0) }
+func VerifSnappyEncode(data []byte) []byte                   { return doSnappyEncode(data) }
+func VerifZSTDEncode(data []byte, level int) ([]byte, error) { return doZSTDEncode(data, level) }
+func VerifGzip(data []byte, level int) ([]byte, error)       { return doGzip(data, level) }
+func VerifBrotli(data []byte, level int) ([]byte, error)     { return doBrotli(data, level) }
